@@ -145,4 +145,3 @@ func cmdVerify(args []string) {
 }
 
 func cmdReplay(args []string)   { fmt.Println("not implemented yet"); os.Exit(2) }
-func cmdSelftest(args []string) { fmt.Println("not implemented yet"); os.Exit(2) }
